@@ -290,3 +290,30 @@ b:
   %s = select %bool %c, i32 1, i32 2
   ret void
 }
+;;; ATOM types/alias-chain-of-vector-types-compared
+%V = type <4 x i32>
+%A = type %V
+%SV = type <vscale x 2 x float>
+%SA = type %SV
+%PV = type <2 x i8*>
+%PA = type %PV
+define <4 x i1> @f(%A %a, %A %b, %SA %x, %SA %y, %PA %p, %PA %q) {
+  %c = icmp slt %A %a, %b
+  %d = fcmp olt %SA %x, %y
+  %e = icmp eq %PA %p, %q
+  %s = select <vscale x 2 x i1> %d, %SA %x, %SA %y
+  %t = select <2 x i1> %e, %PA %p, %PA %q
+  ret <4 x i1> %c
+}
+;;; ATOM types/alias-chain-of-vector-types-compared-unused
+%V = type <4 x i32>
+%A = type %V
+%B = type %A
+%SV = type <vscale x 2 x float>
+%SA = type %SV
+define void @f(%A %a, %B %b, %SA %x, %SA %y) {
+  %c = icmp slt %A %a, %a
+  %d = icmp ugt %B %b, %b
+  %e = fcmp olt %SA %x, %y
+  ret void
+}
